@@ -40,6 +40,9 @@ TraceNext ==
      /\ Need(Files(got) \subseteq ToSet(e.dist), "FoundFilesAreDistributed", Files(got) \ ToSet(e.dist))
      /\ Need(Files(MustExtra(tree, e.filter)) \subseteq ToSet(e.dist), "ExtraFilesAreDistributed",
              Files(MustExtra(tree, e.filter)) \ ToSet(e.dist))
+     \* (an extra glob that matches directories - trailing "/" or type d / * - adds the directory)
+     /\ Need(MustExtra(tree, e.filter) \subseteq ToSet(e.dist), "ExtraDirectoriesAreDistributed",
+             MustExtra(tree, e.filter) \ ToSet(e.dist))
      /\ Need(\A x \in ToSet(e.dist) : x = root \/ x \in got \/ x \in MayExtra(tree, e.filter) \/ x \in ToSet(e.other_dist),
              "NothingElseIsDistributed", { x \in ToSet(e.dist) : ~(x = root \/ x \in got \/ x \in MayExtra(tree, e.filter) \/ x \in ToSet(e.other_dist)) })
   /\ l' = l + 1 /\ UNCHANGED t
